@@ -32,6 +32,14 @@ const (
 	c14N4    = "dtn://n4/"
 )
 
+// Hooks set by verif_c14_internal_test.go (optional: it needs unexported IdKeeper/Core fields).
+var (
+	// writes the bare-IdKeeper observation lines (idk, idkc)
+	verifC14Internal func(emit func(string), rng *verifRng, thorough bool, replay string)
+	// switches the Core's periodic jobs off
+	verifC14Quiesce func(c *Core)
+)
+
 // ---------------------------------------------------------------- rendering
 
 func c14Tag(payload []byte) string {
@@ -133,7 +141,15 @@ func (a *c14Agent) submit(bs []bpv7.Bundle) {
 
 // ---------------------------------------------------------------- group scenarios
 
+// c14Pat: one submission of a "mixed" group: which source, which creation time
+// (0 = T, 1 = T+1 s, 2 = T-1 s, 3 = epoch, 4 = T+1 ms).
+type c14Pat struct {
+	src  string
+	tsel int
+}
+
 type c14Group struct {
+	pattern []c14Pat
 	path   string // sb | agent | report | report2
 	mode   string // seq | conc
 	peer   string // none | neigh | destfail | dest
@@ -178,9 +194,9 @@ func (g *c14Group) run(dir string) (line string) {
 		return head + " error newcore"
 	}
 	defer c.Close()
-	// the periodic retry (10 s) must not interleave with the scripted one when the machine is slow
-	c.cron.Unregister("pending_bundles")
-	c.cron.Unregister("clean_store")
+	if verifC14Quiesce != nil {
+		verifC14Quiesce(c)
+	}
 
 	net := &verifNet{}
 	var lmu sync.Mutex
@@ -226,9 +242,27 @@ func (g *c14Group) run(dir string) (line string) {
 	expected := g.k
 	switch g.path {
 	case "sb", "agent":
+		if g.pattern != nil {
+			// Core.HasEndpoint(source) must hold for the application endpoint as well
+			c.RegisterApplicationAgent(newC14Agent(c14App))
+		}
 		for i := 0; i < g.k; i++ {
 			payload := fmt.Sprintf("c14-g%d-b%d", g.idx, i)
-			b, err := c14Bundle(src, c14Dest, g.tkind, t, g.seq0, payload)
+			bsrc, btk, bt := src, g.tkind, t
+			if g.pattern != nil {
+				bsrc, btk = g.pattern[i].src, "now"
+				switch g.pattern[i].tsel {
+				case 1:
+					bt = t.Add(time.Second)
+				case 2:
+					bt = t.Add(-time.Second)
+				case 3:
+					btk = "epoch"
+				case 4:
+					bt = t.Add(time.Millisecond)
+				}
+			}
+			b, err := c14Bundle(bsrc, c14Dest, btk, bt, g.seq0, payload)
 			if err != nil {
 				return head + " error build"
 			}
@@ -442,101 +476,6 @@ func (g *c14Group) run(dir string) (line string) {
 	return fmt.Sprintf("%s now=%d n=%d subs=%s snap=%s sent=%s", head, uint64(now), expected, c14Join(subs), c14Join(snap), c14Join(sent))
 }
 
-// ---------------------------------------------------------------- bare IdKeeper scripts
-
-func c14IdkDump(idk *IdKeeper) string {
-	idk.mutex.Lock()
-	defer idk.mutex.Unlock()
-	var items []string
-	for tpl, n := range idk.data {
-		items = append(items, fmt.Sprintf("%s~%d~%d", tpl.source.String(), uint64(tpl.time), n))
-	}
-	sort.Strings(items)
-	if len(items) == 0 {
-		return "-"
-	}
-	return strings.Join(items, "+")
-}
-
-// ages (ms) relative to the clock; none within 5 s of 86.4 s or 24 h (the two candidate windows)
-var c14Ages = []int64{0, 1000, 60000, 80000, 93000, 3600000, 82800000, 90000000, 259200000, -10000}
-
-func c14IdkLine(rng *verifRng, auto bool, nops int) string {
-	idk := NewIdKeeper()
-	idk.autoClean = auto
-	base := int64(bpv7.DtnTimeNow())
-	srcs := []string{c14Node, c14App}
-	// a small pool of keys so that repetitions are frequent
-	type key struct {
-		src string
-		t   uint64
-	}
-	var pool []key
-	for i := 0; i < 3; i++ {
-		age := c14Ages[rng.intn(len(c14Ages))]
-		pool = append(pool, key{srcs[rng.intn(2)], uint64(base - age)})
-	}
-	pool = append(pool, key{srcs[rng.intn(2)], 0})
-	var ops, outs []string
-	for i := 0; i < nops; i++ {
-		now := uint64(bpv7.DtnTimeNow())
-		if !auto && rng.intn(4) == 0 {
-			idk.clean()
-			ops = append(ops, fmt.Sprintf("c|%d", now))
-			outs = append(outs, "-|"+c14IdkDump(&idk))
-			continue
-		}
-		k := pool[rng.intn(len(pool))]
-		b, err := c14Bundle(k.src, c14Dest, map[bool]string{true: "epoch", false: "now"}[k.t == 0], time.Now(), uint64(rng.intn(3)), "x")
-		if err != nil {
-			return "idk error build"
-		}
-		b.PrimaryBlock.CreationTimestamp[0] = k.t
-		idk.update(&b)
-		ops = append(ops, fmt.Sprintf("u|%s|%d|%d", k.src, k.t, now))
-		outs = append(outs, fmt.Sprintf("%d|%s", b.PrimaryBlock.CreationTimestamp.SequenceNumber(), c14IdkDump(&idk)))
-	}
-	a := 0
-	if auto {
-		a = 1
-	}
-	return fmt.Sprintf("idk %d %s %s", a, strings.Join(ops, ","), strings.Join(outs, ","))
-}
-
-// c14IdkConc: k goroutines update one key of a bare IdKeeper at once.
-func c14IdkConc(k int, t uint64, rounds int) string {
-	var all []string
-	for r := 0; r < rounds; r++ {
-		idk := NewIdKeeper()
-		var wg sync.WaitGroup
-		start := make(chan struct{})
-		seqs := make([]uint64, k)
-		for i := 0; i < k; i++ {
-			b, err := c14Bundle(c14Node, c14Dest, map[bool]string{true: "epoch", false: "now"}[t == 0], time.Now(), 0, "x")
-			if err != nil {
-				return "idkc error build"
-			}
-			b.PrimaryBlock.CreationTimestamp[0] = t
-			wg.Add(1)
-			go func(i int, b bpv7.Bundle) {
-				defer wg.Done()
-				<-start
-				idk.update(&b)
-				seqs[i] = b.PrimaryBlock.CreationTimestamp.SequenceNumber()
-			}(i, b)
-		}
-		close(start)
-		wg.Wait()
-		sort.Slice(seqs, func(i, j int) bool { return seqs[i] < seqs[j] })
-		var ss []string
-		for _, s := range seqs {
-			ss = append(ss, fmt.Sprint(s))
-		}
-		all = append(all, strings.Join(ss, "|"))
-	}
-	return fmt.Sprintf("idkc %d %d %s", k, t, strings.Join(all, ","))
-}
-
 // ---------------------------------------------------------------- entry
 
 func TestVerifC14(t *testing.T) {
@@ -575,27 +514,11 @@ func TestVerifC14(t *testing.T) {
 		}
 	}
 
-	// ---- part 1: bare IdKeeper against the model (exact)
-	nIdk := 60
-	if verifThorough() {
-		nIdk = 400
-	}
-	for i := 0; i < nIdk; i++ {
-		if replay != "" && replay != "idk" {
-			break
-		}
-		fmt.Fprintln(w, c14IdkLine(rng, i%2 == 0, 4+rng.intn(9)))
-	}
-	rounds := 40
-	if verifThorough() {
-		rounds = 400
-	}
-	for k := 2; k <= 8; k++ {
-		if replay != "" && replay != "idkc" {
-			break
-		}
-		fmt.Fprintln(w, c14IdkConc(k, 0, rounds))
-		fmt.Fprintln(w, c14IdkConc(k, uint64(bpv7.DtnTimeNow()), rounds))
+	// ---- part 1: bare IdKeeper against the model (exact) - only when the internal file compiled
+	if verifC14Internal != nil {
+		verifC14Internal(func(l string) { fmt.Fprintln(w, l) }, rng, verifThorough(), replay)
+	} else {
+		fmt.Fprintln(w, "# C14 internal IdKeeper scripts not compiled in: API-level groups only")
 	}
 	w.Flush()
 
@@ -638,12 +561,46 @@ func TestVerifC14(t *testing.T) {
 			for _, mode := range []string{"seq", "conc"} {
 				add("sreport", mode, peers[rng.intn(4)], "now", k, 0)
 			}
+
 			add("report", "conc", peers[rng.intn(4)], "now", k, 0)
 			add("report2", "conc", peers[rng.intn(4)], "now", k, 0)
 			if k%2 == 0 || verifThorough() {
 				add("report", "seq", peers[rng.intn(4)], "now", k, 0)
 			} else {
 				add("report2", "seq", peers[rng.intn(4)], "now", k, 0)
+			}
+		}
+	}
+	// histories with NON-MONOTONE creation times per source: T, T', T (T' later or earlier), the epoch
+	// mixed with clock times, two sources interleaved, and random ones
+	A, B := c14Node, c14App
+	pats := [][]c14Pat{
+		{{A, 0}, {A, 1}, {A, 0}},
+		{{A, 0}, {A, 2}, {A, 0}},
+		{{A, 0}, {A, 3}, {A, 0}, {A, 3}},
+		{{A, 0}, {B, 0}, {A, 1}, {B, 0}, {A, 0}, {B, 1}, {A, 1}},
+		{{A, 0}, {A, 4}, {A, 0}, {A, 4}, {A, 0}},
+		{{B, 3}, {B, 2}, {B, 3}, {B, 0}, {B, 2}, {B, 0}},
+	}
+	nrand := 2
+	if verifThorough() {
+		nrand = 12
+	}
+	for r := 0; r < nrand; r++ {
+		var pt []c14Pat
+		n := 3 + rng.intn(6)
+		for i := 0; i < n; i++ {
+			pt = append(pt, c14Pat{[]string{A, B}[rng.intn(2)], rng.intn(5)})
+		}
+		pats = append(pats, pt)
+	}
+	for rep := 0; rep < reps; rep++ {
+		for _, pt := range pats {
+			for _, path := range []string{"sb", "agent"} {
+				for _, mode := range []string{"seq", "conc"} {
+					add(path, mode, peers[rng.intn(4)], "mixed", len(pt), uint64(rng.intn(2)*7))
+					groups[len(groups)-1].pattern = pt
+				}
 			}
 		}
 	}
